@@ -596,8 +596,19 @@ func (g *heapGen) args(h *heapRun, op string, recv int, o *obj) *Step {
 			rs = append(rs, map[string]interface{}{"p": f64(0), "s": f64(g.boundary(pl)), "e": f64(g.boundary(pl)), "m": f64(g.rng.Intn(3))})
 			rs = append(rs, map[string]interface{}{"p": f64(1), "s": f64(0), "e": f64(pl - 1), "m": f64(1)})
 		}
+		if pl >= 6 && g.rng.Intn(4) == 0 {
+			// a modulo interval followed by a plain interval of the same partition
+			k := 2 + g.rng.Intn(2)
+			cut := pl - 2 - g.rng.Intn(2)
+			rs = []interface{}{map[string]interface{}{"p": f64(0), "s": f64(0), "e": f64(cut - 1), "m": f64(k)},
+				map[string]interface{}{"p": f64(0), "s": f64(cut), "e": f64(pl - 1), "m": f64(1)}}
+			for j := 1; j < k; j++ {
+				rs = append(rs, map[string]interface{}{"p": f64(j), "s": f64(j), "e": f64(cut - 1), "m": f64(k)})
+			}
+		}
 		a["plen"] = f64(pl)
 		a["ranges"] = rs
+		a["text"] = g.rng.Intn(2) == 0
 	case "RemoveGapSites":
 		if !needAl() || n == 0 || L < 0 { // cleaning an empty alignment is outside every property's quantifier
 			return nil
